@@ -52,6 +52,24 @@ macro_rules! iis {
     };
 }
 
+/// Sylt string literals have no escape sequences: every character between the quotes
+/// stands for itself. Lua's do, and a Lua string cannot contain a raw newline, so the
+/// content is escaped on the way out.
+fn escape_lua_string(s: &str) -> String {
+    let mut out = String::with_capacity(s.len());
+    for c in s.chars() {
+        match c {
+            '\\' => out.push_str("\\\\"),
+            '"' => out.push_str("\\\""),
+            '\n' => out.push_str("\\n"),
+            '\r' => out.push_str("\\r"),
+            c if (c as u32) < 32 || c as u32 == 127 => out.push_str(&format!("\\{:03}", c as u32)),
+            c => out.push(c),
+        }
+    }
+    out
+}
+
 struct Generator<'a, 'b> {
     usage_count: &'a HashMap<Var, usize>,
     out: &'b mut dyn Write,
@@ -115,7 +133,7 @@ impl<'a, 'b> Generator<'a, 'b> {
 
                 IR::Neg(t, a) => ii!(self, t, "(-{})", a),
 
-                IR::Str(t, s) => iis!(self, t, "\"{}\"", s),
+                IR::Str(t, s) => iis!(self, t, "\"{}\"", escape_lua_string(s)),
                 IR::Float(t, f) => iis!(self, t, "{:?}", f),
 
                 IR::Equals(t, a, b) => ii!(self, t, "({} == {})", a, b),
